@@ -21,7 +21,7 @@ _ERR_FILTER = [None]
 
 
 def is_err_result(t):
-    ok = isinstance(t, tuple) and t[0] == "adt" and t[1] == RESULT and len(t[2]) >= 2 and isinstance(t[2][1], tuple) and t[2][1][0] == "adt" and t[2][1][1] in ERR_TYPES
+    ok = isinstance(t, tuple) and len(t) >= 3 and t[0] == "adt" and t[1] == RESULT and len(t[2]) >= 2 and isinstance(t[2][1], tuple) and len(t[2][1]) >= 2 and t[2][1][0] == "adt" and t[2][1][1] in ERR_TYPES
     if ok and _ERR_FILTER[0] is not None:
         return t[2][1][1] in _ERR_FILTER[0]
     return ok
@@ -175,6 +175,22 @@ def _err_adaptors_in(u, b, rep):
     calls_in(b.crate, b.thir["root"], acc)
     for (dj, rj, e) in acc:
         nm = dj.get("name")
+        if dj.get("krate") == "core" and nm in ("or_else", "unwrap_or_else") and len(e["args"]) == 2 and _mentions_err_result(b.crate.ty(e["args"][0]["ty"])):
+            # the alternative of a failed fallible operation is itself a fallible operation on the stream: a retry or a
+            # substitute write/read is issued after a failure (what the sink/source saw of the first attempt stays)
+            x = e["args"][1]
+            while x.get("k") in ("Use", "NeverToAny") and "e" in x:
+                x = x["e"]
+            if x.get("k") == "Closure":
+                cb = u.bodies.get(b.crate.def_id(x["d"]))
+                inner = []
+                if cb is not None and cb.thir is not None:
+                    calls_in(cb.crate, cb.thir["root"], inner)
+                again = [d2 for (d2, _r2, e2) in inner if "ty" in e2 and is_err_result(cb.crate.ty(e2["ty"]))]
+                n += 1
+                rep.oblige(not again)
+                if again:
+                    rep.add("P-ERR", "%s:%s" % (short_fn(b), nm), "in `%s` the failure of a fallible operation is answered by `%s` inside `.%s(..)`: another stream operation is issued after a failed one" % (b.n, again[0].get("name"), nm), b.crate.span(e["sp"]))
         if dj.get("krate") == "core" and nm in ("flat_map", "flatten", "filter_map") and e["args"]:
             bad = False
             if nm == "flatten":
@@ -446,19 +462,67 @@ def _rule_err_drop(u, rep, scope_files, crate="epserde", rule="ERR-DROP", exclud
     return nl
 
 
-def rule_reader_refusals(u, rep, mode, rule="ERR-WHO"):
+RELABEL_FNS = ("or", "or_else", "map_err")
+
+
+def _is_stream_primitive_call(b, x):
+    while isinstance(x, dict) and x.get("k") in ("Use", "NeverToAny", "Scope") and "e" in x:
+        x = x["e"]
+    if not isinstance(x, dict) or x.get("k") != "Call":
+        return False
+    acc = []
+    calls_in(b.crate, x, acc)
+    for (dj, _rj, e) in acc:
+        if e is x:
+            n = dj.get("n") or ""
+            return "::ReadWithPos::" in n or "::ReadNoStd::" in n
+    return False
+
+
+def _relabel_sites(u, primitive_only=False):
+    """(ids of THIR nodes, def ids of closures) that are the alternative of a failed Result: the second argument of
+    Result::or / or_else / map_err. An error built there replaces another error; it is not a refusal of its own."""
+    nodes, closures = set(), set()
+    for b in u.bodies.values():
+        if b.thir is None:
+            continue
+        acc = []
+        calls_in(b.crate, b.thir["root"], acc)
+        for (dj, _rj, e) in acc:
+            if dj.get("krate") == "core" and dj.get("name") in RELABEL_FNS and len(e["args"]) == 2 and _mentions_err_result(b.crate.ty(e["args"][0]["ty"])):
+                if primitive_only and not _is_stream_primitive_call(b, e["args"][0]):
+                    continue
+                stack = [e["args"][1]]
+                while stack:
+                    x = stack.pop()
+                    if isinstance(x, dict):
+                        nodes.add(id(x))
+                        if x.get("k") == "Closure":
+                            closures.add(b.crate.def_id(x["d"]))
+                        stack.extend(x.values())
+                    elif isinstance(x, list):
+                        stack.extend(x)
+    return nodes, closures
+
+
+def rule_reader_refusals(u, rep, mode, rule="ERR-WHO", relabel_ok=False, tags_only=False):
     """Per-type readers (the `_deserialize_{full,eps}_inner*` methods of every impl, built-in or derived, and the
     helpers of deser/helpers.rs) may construct exactly one error themselves: InvalidTag, for a tag no variant
     writes. Every other failure must come up from a stream primitive. A reader that builds another error refuses
     stream forms the (total) writers produce."""
     n = 0
     want = "_deserialize_%s_inner" % mode
+    rl_nodes, rl_closures = _relabel_sites(u, relabel_ok == "primitive") if relabel_ok else (set(), set())
+    all_rl_nodes = _relabel_sites(u)[0] if tags_only else set()
     for b in u.bodies.values():
         if b.thir is None or b.kind not in ("Fn", "AssocFn", "Closure"):
             continue
+        if b.id in rl_closures:
+            continue
         nm = b.d.get("name") or ""
         f = b.crate.files[b.sp[0]] if b.sp else ""
-        is_reader = nm.startswith(want) or (b.d.get("krate") == "epserde" and "deser/helpers.rs" in f and (mode in nm))
+        other = "eps" if mode == "full" else "full"
+        is_reader = nm.startswith(want) or (b.d.get("krate") == "epserde" and "deser/helpers.rs" in f and (mode in nm or other not in nm))
         # the top-level entry point of the mode (header check + the reader): it refuses nothing by itself
         is_entry = b.d.get("krate") == "epserde" and nm == "deserialize_%s" % mode and "deser/mod.rs" in f
         is_reader = is_reader or is_entry
@@ -467,12 +531,17 @@ def rule_reader_refusals(u, rep, mode, rule="ERR-WHO"):
         acc = []
         adts_built_in(b.crate, b.thir["root"], acc)
         n += 1
+        tagged = is_entry or any(aid == "epserde::deser::Error" and vname == "InvalidTag" for (aid, vname, _e) in acc)
         for (aid, vname, e) in acc:
             if aid == "epserde::deser::Error":
+                if id(e) in rl_nodes:
+                    continue                  # replaces the error of a failed operation (decided by the error-path properties)
+                if tags_only and not tagged and id(e) not in all_rl_nodes:
+                    continue                  # a fresh refusal in a reader that handles no tag cannot hide or rewrite an InvalidTag
                 ok = vname == "InvalidTag" and not (b.d.get("krate") == "epserde" and nm == "deserialize_%s" % mode)
                 rep.oblige(ok)
                 if not ok:
-                    rep.add(rule, "%s:%s" % (b.n, vname), "the %s reader `%s` builds Error::%s itself: apart from InvalidTag for a foreign tag, a reader may only pass on failures of the stream; this refuses streams that serialization produces" % (mode, b.n, vname), b.crate.span(e["sp"]))
+                    rep.add(rule, "%s:%s" % (b.n, vname), "the %s reader `%s` builds Error::%s itself: apart from InvalidTag for a foreign tag, a reader may only pass on failures of the stream unchanged: this either refuses a stream that serialization produces or replaces the failure it was handed" % (mode, b.n, vname), b.crate.span(e["sp"]))
     rep.count("reader_functions_scanned_" + mode, n)
     return n
 
@@ -543,3 +612,51 @@ def rule_fail_fast(u, rep, scope_files, crate="epserde", rule="FAIL-FAST", errs=
         return n
     finally:
         _ERR_FILTER[0] = None
+
+
+# std's byte-offset operations on strings: each panics when the offset is not on a char boundary (or out of range)
+STR_OFFSET_FNS = ("truncate", "split_at", "split_at_mut", "split_off", "insert", "insert_str", "remove", "drain", "replace_range", "index", "index_mut")
+BOUNDARY_SOURCES = ("len", "floor_char_boundary", "ceil_char_boundary", "find", "rfind", "char_indices", "len_utf8", "is_char_boundary", "match_indices", "rmatch_indices")
+
+
+def rule_str_offsets(u, rep, scope_files, crate="epserde", rule="STR-BOUNDARY"):
+    """Serialization is total: the one string the writer side handles is `type_name::<T>()`, arbitrary UTF-8 (identifiers
+    may be non-ASCII). A byte-offset operation of std on a String/str (truncate, split_at, slicing, ...) panics off a
+    char boundary, so in the writer side its offset must come from a boundary-producing operation of the same API
+    family (len, find, char_indices, floor_char_boundary, ...) or be tested with is_char_boundary."""
+    n = 0
+    for b in u.bodies.values():
+        if b.thir is None or b.d.get("krate") != crate or not in_scope(b, scope_files):
+            continue
+        acc = []
+        calls_in(b.crate, b.thir["root"], acc)
+        names = set((rj or dj).get("name") for dj, rj, _e in acc)
+        for (dj, rj, e) in acc:
+            d = rj or dj
+            if d.get("krate") not in ("core", "alloc", "std") or d.get("name") not in STR_OFFSET_FNS or not e["args"]:
+                continue
+            rt = b.crate.ty(e["args"][0]["ty"])
+            while isinstance(rt, tuple) and rt and rt[0] == "ref":
+                rt = rt[2]
+            is_str = rt == ("prim", "str") or (isinstance(rt, tuple) and rt and rt[0] == "adt" and rt[1] == "alloc::string::String")
+            if not is_str:
+                continue
+            n += 1
+            inner = []
+            for a in e["args"][1:]:
+                calls_in(b.crate, a, inner)
+            derived = any((r2 or d2).get("name") in BOUNDARY_SOURCES for d2, r2, _e2 in inner)
+            lit0 = all(_is_lit_zero_range(a) for a in e["args"][1:])
+            ok = derived or lit0 or "is_char_boundary" in names or "floor_char_boundary" in names
+            rep.oblige(ok)
+            if not ok:
+                rep.add(rule, "%s:%s" % (short_fn(b), d.get("name")), "`%s` applies the byte-offset operation `%s` to a string with an offset that does not come from a char-boundary-producing operation: it panics when the offset falls inside a multi-byte character (type names may contain any identifier character)" % (b.n, d.get("n")), b.crate.span(e["sp"]))
+    rep.count("string_offset_sites", n)
+    return n
+
+
+def _is_lit_zero_range(a):
+    x = a
+    while isinstance(x, dict) and x.get("k") in ("Use", "NeverToAny", "Scope", "Cast") and "e" in x:
+        x = x["e"]
+    return isinstance(x, dict) and x.get("k") == "Lit" and x.get("v") == 0
